@@ -3,6 +3,7 @@ package hcv
 import (
 	"go/types"
 	"sort"
+	"strings"
 
 	"golang.org/x/tools/go/ssa"
 )
@@ -54,7 +55,14 @@ func (p *Prog) funcValueRoots(v ssa.Value, yieldArgs map[*ssa.Function][]ssa.Val
 				idx := paramIndex(y.Parent(), y)
 				_ = idx
 				for _, a := range args {
-					fs, c := p.funcValueRoots(a, nil)
+					// (the argument may itself be the func-typed parameter of a wrapper whose callers are known)
+					var inner map[*ssa.Function][]ssa.Value
+					if prm, isPrm := a.(*ssa.Parameter); isPrm && prm.Parent() != y.Parent() {
+						if _, ok := yieldArgs[prm.Parent()]; ok {
+							inner = yieldArgs
+						}
+					}
+					fs, c := p.funcValueRoots(a, inner)
 					if !c {
 						complete = false
 					}
@@ -221,8 +229,8 @@ func (p *Prog) refine() *refined {
 				hasFuncParam = true
 			}
 		}
-		if !hasFuncParam || g.Parent() == nil {
-			continue
+		if !hasFuncParam || (g.Parent() == nil && !strings.HasSuffix(g.Name(), "$bound")) {
+			continue // (the wrapper of a bound method value - `pairs{...}.each` handed out as an iterator - counts as a closure)
 		}
 		n := p.VTA.Nodes[g]
 		if n == nil {
